@@ -216,6 +216,11 @@ func c19NoRecover(c *vlib.Ctx) {
 				for _, b := range cp.BigStretch(seed) {
 					s.one(t, b, "big-stretch")
 				}
+				tv := cp.TextVariants(seed, c.Pick(1500, 6000))
+				for _, b := range tv {
+					s.one(t, b, "text-line-variant")
+				}
+				c.Count("text_line_variants", len(tv))
 				if si < c.Pick(2, 8) {
 					wl := cp.WordSweepLong(seed, c.Pick(40, 200))
 					for _, b := range wl {
